@@ -531,31 +531,31 @@ package common
 //@ axiom sh_bit_def [manual]: forall seed Root32, r int, pos int :: {sh_bit(seed, r, pos)} pos >= 0 ==> sh_bit(seed, r, pos) == (sha256(cat(seed, Bytes1(r), le32(pos / 256)))[(pos % 256) / 8] / pow2(pos % 8)) % 2
 //@ define sh_flip(seed Root32, r int, n int, i int) int = (sh_pivot(seed, r, n) + n - i) % n
 //@ ufun sh_round(Root32, int, int, int) int
-//@ axiom sh_round_def: forall seed Root32, r int, n int, i int :: {sh_round(seed, r, n, i)} sh_round(seed, r, n, i) == ite(sh_bit(seed, r, max(i, sh_flip(seed, r, n, i))) == 1, sh_flip(seed, r, n, i), i)
+//@ axiom sh_round_def [manual]: forall seed Root32, r int, n int, i int :: {sh_round(seed, r, n, i)} sh_round(seed, r, n, i) == ite(sh_bit(seed, r, max(i, sh_flip(seed, r, n, i))) == 1, sh_flip(seed, r, n, i), i)
 // (uninterpreted with defining axioms that unfold only at round numbers marked by ktrig: no unbounded unfolding)
 //@ ufun sh_fwd(Root32, int, int, int) int
 //@ ufun sh_bwd(Root32, int, int, int) int
-//@ axiom sh_fwd_def: forall seed Root32, n int, i int, k int :: {sh_fwd(seed, n, i, k), ktrig(k)} sh_fwd(seed, n, i, k) == ite(k <= 0, i, sh_round(seed, k - 1, n, sh_fwd(seed, n, i, k - 1)))
-//@ axiom sh_bwd_def: forall seed Root32, n int, x int, k int :: {sh_bwd(seed, n, x, k), ktrig(k)} sh_bwd(seed, n, x, k) == ite(k <= 0, x, sh_bwd(seed, n, sh_round(seed, k - 1, n, x), k - 1))
+//@ axiom sh_fwd_def [manual]: forall seed Root32, n int, i int, k int :: {sh_fwd(seed, n, i, k), ktrig(k)} sh_fwd(seed, n, i, k) == ite(k <= 0, i, sh_round(seed, k - 1, n, sh_fwd(seed, n, i, k - 1)))
+//@ axiom sh_bwd_def [manual]: forall seed Root32, n int, x int, k int :: {sh_bwd(seed, n, x, k), ktrig(k)} sh_bwd(seed, n, x, k) == ite(k <= 0, x, sh_bwd(seed, n, sh_round(seed, k - 1, n, x), k - 1))
 //@ define shuf_idx(rounds int, index int, n int, seed Root32) int = sh_fwd(seed, n, index, rounds)
 
 // one round maps [0, n) to itself and is its own inverse (both members of a pair see the same position, hence the same bit)
-//@ lemma sh_pivot_range [C06, use=sh_pivot_def]: forall seed Root32, r int, n int :: {sh_pivot(seed, r, n)} 0 < n ==> 0 <= sh_pivot(seed, r, n) && sh_pivot(seed, r, n) < n
-//@ lemma sh_mod2n [C06]: forall a int, n int :: {a % n} 0 < n && 0 <= a && a < 2 * n ==> a % n == ite(a < n, a, a - n)
-//@ lemma sh_round_range [C06]: forall seed Root32, r int, n int, i int :: {sh_round(seed, r, n, i)} 0 < n && 0 <= i && i < n ==> 0 <= sh_round(seed, r, n, i) && sh_round(seed, r, n, i) < n
-//@ lemma sh_round_involution [C06]: forall seed Root32, r int, n int, i int :: {sh_round(seed, r, n, i)} 0 < n && 0 <= i && i < n ==> sh_round(seed, r, n, sh_round(seed, r, n, i)) == i
+//@ lemma sh_pivot_range [C06, manual, use=sh_pivot_def]: forall seed Root32, r int, n int :: {sh_pivot(seed, r, n)} 0 < n ==> 0 <= sh_pivot(seed, r, n) && sh_pivot(seed, r, n) < n
+//@ lemma sh_mod2n [C06, manual]: forall a int, n int :: {a % n} 0 < n && 0 <= a && a < 2 * n ==> a % n == ite(a < n, a, a - n)
+//@ lemma sh_round_range [C06, manual, use=sh_round_def, use=sh_pivot_range, use=sh_mod2n]: forall seed Root32, r int, n int, i int :: {sh_round(seed, r, n, i)} 0 < n && 0 <= i && i < n ==> 0 <= sh_round(seed, r, n, i) && sh_round(seed, r, n, i) < n
+//@ lemma sh_round_involution [C06, manual, use=sh_round_def, use=sh_pivot_range, use=sh_mod2n]: forall seed Root32, r int, n int, i int :: {sh_round(seed, r, n, i)} 0 < n && 0 <= i && i < n ==> sh_round(seed, r, n, sh_round(seed, r, n, i)) == i
 // ranges and the two inverse laws, by induction on the number of rounds
-//@ lemma sh_fwd_range [C06, induct=k]: forall k int, seed Root32, n int, i int :: {sh_fwd(seed, n, i, k)} ktrig(k) && 0 < n && 0 <= i && i < n ==> 0 <= sh_fwd(seed, n, i, k) && sh_fwd(seed, n, i, k) < n
-//@ lemma sh_bwd_range [C06, induct=k]: forall k int, seed Root32, n int, x int :: {sh_bwd(seed, n, x, k)} ktrig(k) && 0 < n && 0 <= x && x < n ==> 0 <= sh_bwd(seed, n, x, k) && sh_bwd(seed, n, x, k) < n
-//@ lemma sh_bwd_fwd [C06, induct=k]: forall k int, seed Root32, n int, i int :: {sh_fwd(seed, n, i, k)} ktrig(k) && 0 < n && 0 <= i && i < n ==> sh_bwd(seed, n, sh_fwd(seed, n, i, k), k) == i
-//@ lemma sh_fwd_bwd [C06, induct=k]: forall k int, seed Root32, n int, x int :: {sh_bwd(seed, n, x, k)} ktrig(k) && 0 < n && 0 <= x && x < n ==> sh_fwd(seed, n, sh_bwd(seed, n, x, k), k) == x
+//@ lemma sh_fwd_range [C06, induct=k, manual, use=sh_fwd_def, use=sh_round_range]: forall k int, seed Root32, n int, i int :: {sh_fwd(seed, n, i, k)} ktrig(k) && 0 < n && 0 <= i && i < n ==> 0 <= sh_fwd(seed, n, i, k) && sh_fwd(seed, n, i, k) < n
+//@ lemma sh_bwd_range [C06, induct=k, manual, use=sh_bwd_def, use=sh_round_range]: forall k int, seed Root32, n int, x int :: {sh_bwd(seed, n, x, k)} ktrig(k) && 0 < n && 0 <= x && x < n ==> 0 <= sh_bwd(seed, n, x, k) && sh_bwd(seed, n, x, k) < n
+//@ lemma sh_bwd_fwd [C06, induct=k, manual, use=sh_fwd_def, use=sh_bwd_def, use=sh_round_range, use=sh_round_involution, use=sh_fwd_range]: forall k int, seed Root32, n int, i int :: {sh_fwd(seed, n, i, k)} ktrig(k) && 0 < n && 0 <= i && i < n ==> sh_bwd(seed, n, sh_fwd(seed, n, i, k), k) == i
+//@ lemma sh_fwd_bwd [C06, induct=k, manual, use=sh_fwd_def, use=sh_bwd_def, use=sh_round_range, use=sh_round_involution, use=sh_bwd_range]: forall k int, seed Root32, n int, x int :: {sh_bwd(seed, n, x, k)} ktrig(k) && 0 < n && 0 <= x && x < n ==> sh_fwd(seed, n, sh_bwd(seed, n, x, k), k) == x
 
 
 // PermuteIndex / UnpermuteIndex compute sh_fwd / sh_bwd (verified through innerPermuteIndex, inlined with
 // the hash function the callers pass: hashing.Hash = SHA-256). List sizes up to 2^40 (VALIDATOR_REGISTRY_LIMIT).
 //@ func innerPermuteIndex(hashFn, rounds, input, listSize, seed, dir) res
 //@   opt inline=always
-//@   use sh_pivot_def, sh_bit_def, sh_mod2n
+//@   use sh_pivot_def, sh_bit_def, sh_round_def, sh_fwd_def, sh_bwd_def, sh_mod2n, sh_pivot_range, sh_round_range, sh_fwd_range, sh_bwd_range
 //@   after Hash@1 pivot_hash: result == sha256(cat(seed, Bytes1(r)))
 //@   after Uint64@1 pivot: result % listSize == sh_pivot(seed, r, listSize)
 //@   after PutUint32@1 position: flip == sh_flip(seed, r, listSize, index) && position == max(index, flip) && position < listSize
@@ -571,14 +571,14 @@ package common
 
 //@ func PermuteIndex(rounds, index, listSize, seed) r
 //@   property C06 C07
-//@   use sh_pivot_def, sh_bit_def, sh_mod2n
+//@   use sh_pivot_def, sh_bit_def, sh_round_def, sh_fwd_def, sh_bwd_def, sh_mod2n, sh_pivot_range, sh_round_range, sh_fwd_range, sh_bwd_range
 //@   requires 0 < listSize && listSize <= 1099511627776 && index < listSize
 //@   ensures spec: r == sh_fwd(seed, listSize, index, rounds)
 //@   ensures range: r < listSize
 
 //@ func UnpermuteIndex(rounds, index, listSize, seed) r
 //@   property C06
-//@   use sh_pivot_def, sh_bit_def, sh_mod2n
+//@   use sh_pivot_def, sh_bit_def, sh_round_def, sh_fwd_def, sh_bwd_def, sh_mod2n, sh_pivot_range, sh_round_range, sh_fwd_range, sh_bwd_range
 //@   requires 0 < listSize && listSize <= 1099511627776 && index < listSize
 //@   ensures spec: r == sh_bwd(seed, listSize, index, rounds)
 //@   ensures range: r < listSize
